@@ -909,6 +909,11 @@ def run_job(job, seed=0, replay_dir=None, cross_check=0):
             offgrid_probe(job, S, V, ex, res, real_outcome, known, replay_dir)
         except Exception as e:
             res["inconclusive"].append(f"off-grid probe failed: {e!r}")
+    if hasattr(job, "offgrid_pins") and not res["violations"] and not job.expect_canary_sat:
+        try:
+            pinned_probe(job, S, V, ex, res, real_outcome, known, replay_dir)
+        except Exception as e:
+            res["inconclusive"].append(f"pinned-parameter probe failed: {e!r}")
     res["decisions"] = ex.n_decisions
     res["merges"] = ex.n_merges
     res["queries"] = ex.n_queries
@@ -1159,6 +1164,52 @@ def offgrid_probe(job, S, V, ex, res, real_outcome, known, replay_dir, budget=12
             if bad:
                 res["violations"].append(_violation(job, bad[0] + " [inputs off the dyadic grid G]", Sc, rout, rout, None, replay_dir,
                                                     via="off-grid probe of the real code"))
+                return
+
+
+def pinned_probe(job, S, V, ex, res, real_outcome, known, replay_dir, budget=40):
+    """Real-code probe with one parameter pinned far below grid G (e.g. a tolerance of 2^-60 next to data of order 1..2^20).
+    Only for jobs that state why binary64 is still exact there (`job.offgrid_pins(S)` documents it): the oracle is evaluated on
+    the exact rational values of the inputs, so the unchanged code must agree; code that re-associates the arithmetic
+    (x_max < x_min + tol instead of x_max - x_min < tol) is equivalent over the reals - invisible to the encoding - but lets the
+    tiny parameter be absorbed by rounding."""
+    from . import findings
+    excl = [mk_not(p) for _, p in known]
+    n = getattr(job, "n", None)
+    atoms = []
+    if n is not None:
+        try:
+            dummy = Outcome(flags=[z3.Int(f"dummy!f{i}") for i in range(n)], mask=[FALSE] * n, shape=(n,), dtype="uint8")
+            for a in _atoms([f for _, f in job.holds(S, dummy)]):
+                if any(str(c).startswith("dummy!") for c in _consts(a)):
+                    continue
+                atoms += [a, z3.Not(a)]
+        except Exception:
+            pass
+    seen = set()
+    for label, pins in job.offgrid_pins(S):
+        pinned_ids = {t.get_id() for t in pins}
+        grid = [g for g in V.grid if not any(c.get_id() in pinned_ids for c in _consts(g))]
+        hard = list(V.assumptions) + grid + excl + [t == rv(v) for t, v in pins.items()]
+        models = _scattered_models(V, hard, [[a] for a in atoms[:budget]] or [[]], getattr(job, "name", "") + "/pin/" + label, per_path=1)
+        for m in models:
+            if not exact_on_grid(S, m):
+                continue
+            Sc = concretize(S, m)
+            key = json.dumps(jsonable(Sc), sort_keys=True)
+            if key in seen:
+                continue
+            seen.add(key)
+            _, rout = real_outcome(None, Sc)
+            try:
+                robl = job.holds(findings.symbolize(Sc), rout)
+            except Exception:
+                continue
+            res["offgrid_probes"] = res.get("offgrid_probes", 0) + 1
+            bad = [lab for lab, f in robl if not concrete_truth(None, f)]
+            if bad:
+                res["violations"].append(_violation(job, bad[0] + f" [{label}]", Sc, rout, rout, None, replay_dir,
+                                                    via="pinned-parameter probe of the real code"))
                 return
 
 
